@@ -4,7 +4,7 @@
     Operation [99] is the final drop of the object: its result is what the harness measures
     while dropping ([keys dropped; values dropped; double drops; live tracked objects; live
     heap blocks allocated by the object; poison damage]). *)
-From VF Require Import Base Iter Enc Lru LruStep Slru TwoQ Arc CacheStep Tiny WTiny Sampled TinyStep.
+From VF Require Import Base Iter Enc Lru LruStep Slru TwoQ Arc CacheStep Tiny WTiny Sampled TinyStep Sizing.
 Open Scope Z_scope.
 
 Inductive ustate :=
@@ -16,7 +16,8 @@ Inductive ustate :=
 | UWTiny (s : wtiny)
 | UTiny (s : tinylfu)
 | USampled (s : sampled)
-| UPutRes.
+| UPutRes
+| UCtor.
 
 Definition uinit (kind : Z) (cfg : list Z) : option ustate :=
   match kind with
@@ -28,6 +29,7 @@ Definition uinit (kind : Z) (cfg : list Z) : option ustate :=
   | 5 => option_map UTiny (tinit cfg)
   | 6 => option_map USampled (saminit cfg)
   | 7 => Some UPutRes
+  | 8 => Some UCtor
   | _ => None
   end.
 
@@ -43,6 +45,7 @@ Definition uretained (s : ustate) : nat :=
   | UTiny _ => 0%nat
   | USampled _ => 0%nat
   | UPutRes => 0%nat
+  | UCtor => 0%nat
   end.
 
 Definition drop_out (n : nat) : list Z := [zn n; zn n; 0; 0; 0; 0].
@@ -95,6 +98,7 @@ Definition ustep (s : ustate) (op : list Z) : option (ustate * list Z * list Z) 
     | UTiny s => lift UTiny (tstep_enc s op)
     | USampled s => lift USampled (samstep_enc s op)
     | UPutRes => putres_step op
+    | UCtor => match ctor_step op with Some out => Some (UCtor, out, [0]) | None => None end
     end
   end.
 
@@ -109,4 +113,5 @@ Definition usnap (s : ustate) : list Z :=
   | UTiny s => tsnap s
   | USampled s => samsnap s
   | UPutRes => []
+  | UCtor => []
   end.
